@@ -24,11 +24,13 @@ type c12Case struct {
 	Noise []string `json:"noise,omitempty"`
 	Pos   []int    `json:"pos,omitempty"`
 	CRLF  bool     `json:"crlf,omitempty"`
+	File  bool     `json:"file,omitempty"`              // file-backed lists
+	NoEOL bool     `json:"no_final_newline,omitempty"` // the list does not end with a line feed
 	Reqs  []Q      `json:"reqs"`
 }
 
-func c12Answers(text string, reqs []Q) (string, error) {
-	st, cleanup, err := buildStorage([]ListSpec{{ID: 7, Text: text}})
+func c12Answers(text string, reqs []Q, file bool) (string, error) {
+	st, cleanup, err := buildStorage([]ListSpec{{ID: 7, Text: text, File: file}})
 	if err != nil {
 		return "", err
 	}
@@ -110,11 +112,14 @@ func checkC12(c c12Case, rec *Rec) *Violation {
 	if c.CRLF {
 		noisy = strings.ReplaceAll(noisy, "\n", "\r\n")
 	}
-	a, err := c12Answers(base, c.Reqs)
+	if c.NoEOL {
+		base, noisy = strings.TrimRight(base, "\r\n"), strings.TrimRight(noisy, "\r\n")
+	}
+	a, err := c12Answers(base, c.Reqs, c.File)
 	if err != nil {
 		return viol(id, "C12:harness", "storage: %v", err)
 	}
-	b, err := c12Answers(noisy, c.Reqs)
+	b, err := c12Answers(noisy, c.Reqs, c.File)
 	if err != nil {
 		return viol(id, "C12:harness", "storage: %v", err)
 	}
@@ -178,7 +183,7 @@ func checkC12Line(c c12Case, rec *Rec) *Violation {
 	}
 	// engines over a list holding just this line
 	if !strings.ContainsAny(line, "\n") {
-		if _, aerr := c12Answers(line+"\n", c.Reqs); aerr != nil {
+		if _, aerr := c12Answers(line+"\n", c.Reqs, false); aerr != nil {
 			return viol(id, "C12:harness", "storage: %v", aerr)
 		}
 	}
@@ -352,6 +357,8 @@ func genC12Inert(t *rapid.T) c12Case {
 		c.Pos = append(c.Pos, rapid.IntRange(0, n).Draw(t, "noise-pos"))
 	}
 	c.CRLF = chance(t, "crlf", 3)
+	c.File = chance(t, "file-backed", 3)
+	c.NoEOL = chance(t, "no-final-newline", 3)
 	for i := rapid.IntRange(3, 8).Draw(t, "nreq"); i > 0; i-- {
 		if len(models) > 0 {
 			c.Reqs = append(c.Reqs, genQNear(t, models[rapid.IntRange(0, len(models)-1).Draw(t, "for")]))
